@@ -559,3 +559,117 @@ def precedence_hazards(tree: Tree, fn: FuncInfo) -> list[tuple[ast.AST, str]]:
                 if order[kind] > order[need]:
                     out.append((hole, f"placeholder {{{unparse(hole)}}} has `{what}` in the template but the printed sub-expression may be {'a sum' if kind == 'arbitrary' else 'a product'} (not parenthesised)"))
     return out
+
+
+# --------------------------------------------------------------------------- R-REBUILD
+# SymPy operations that reconstruct every visited node as ``node.func(*node.args)``.  An
+# @unevaluated class keeps arguments declared with argument(sympify=False) outside ``args``
+# (the decorator only carries them through its own _xreplace / _eval_subs / __getnewargs__
+# hooks), so such a reconstruction silently falls back to the field's default.
+REBUILDERS = {
+    "together", "cancel", "factor", "factor_terms", "simplify", "expand", "expand_mul", "expand_complex",
+    "expand_func", "expand_trig", "expand_log", "expand_power_base", "expand_power_exp", "apart", "collect",
+    "ratsimp", "radsimp", "powsimp", "powdenest", "trigsimp", "nsimplify", "signsimp", "combsimp", "gammasimp",
+    "logcombine", "cse", "rewrite", "sqrtdenest", "separatevars", "bottom_up", "use", "nfloat",
+}  # fmt: skip
+REBUILD_METHODS = REBUILDERS - {"cse", "bottom_up", "use"}
+
+
+def carrier_classes(tree: Tree, field_names: tuple[str, ...]) -> dict[str, list[str]]:
+    """Expression classes with a non-sympified argument among ``field_names``."""
+    from .exprmodel import expression_classes
+
+    out = {}
+    for q, ec in expression_classes(tree).items():
+        names = [f.name for f in ec.non_sympy_fields if f.name in field_names]
+        if names:
+            out[q] = names
+    return out
+
+
+def rebuild_sites(tree: Tree, module_prefixes: tuple[str, ...], carriers: dict[str, list[str]]) -> tuple[list[dict], dict]:
+    """Calls of a REBUILDER whose operand may contain an instance of a carrier class.
+
+    operand "may contain a carrier": its reaching-definition closure contains a call to a repo
+    function from which a carrier constructor is reachable in the call graph, or a parameter
+    that receives such a value at some call site of the enclosing function (fixpoint)."""
+    from .dataflow import RD
+
+    graph = tree.call_graph()
+    producers = {q for q in tree.funcs if any(c in tree.reachable(q, graph) for c in carriers)}
+    producers |= set(carriers)
+    fns = [f for q, f in tree.funcs.items() if q.startswith(module_prefixes) and f.outer is None]
+    rds = {f.qual: RD(f.node) for f in fns}
+
+    def find_rd(fn):
+        top = fn
+        while top.outer is not None:
+            top = top.outer
+        return rds.get(top.qual)
+
+    tainted_params: set[tuple[str, str]] = set()
+
+    def expr_tainted(fn, rd, expr) -> str | None:
+        for n in ast.walk(expr):
+            if isinstance(n, ast.Call):
+                callee = tree.callee(n, fn)
+                if callee in producers:
+                    return f"{callee.split('::')[-1]}(...)"
+        for d in rd.closure(rd.uses(expr)):
+            if d.kind == "param" and (fn.qual, d.name) in tainted_params:
+                return f"parameter `{d.name}`"
+            v = d.value if isinstance(d.value, ast.AST) else None
+            if v is not None:
+                for n in ast.walk(v):
+                    if isinstance(n, ast.Call) and tree.callee(n, fn) in producers:
+                        return f"{tree.callee(n, fn).split('::')[-1]}(...)"
+        return None
+
+    all_fns = [f for q, f in tree.funcs.items() if q.startswith(module_prefixes)]
+    for _ in range(4):  # propagate taint into parameters through call sites
+        grew = False
+        for fn in all_fns:
+            rd = find_rd(fn)
+            if rd is None:
+                continue
+            for call, callee in tree.calls_in(fn, nested=False):
+                tgt = tree.funcs.get(callee) if callee else None
+                if tgt is None:
+                    continue
+                params = tgt.params[1:] if tgt.cls is not None and tgt.params[:1] in (["self"], ["cls"]) else tgt.params
+                bound = list(zip(params, call.args)) + [(k.arg, k.value) for k in call.keywords if k.arg]
+                for pname, arg in bound:
+                    if (tgt.qual, pname) not in tainted_params and expr_tainted(fn, rd, arg):
+                        tainted_params.add((tgt.qual, pname))
+                        grew = True
+        if not grew:
+            break
+
+    sites = []
+    n_calls = 0
+    for fn in all_fns:
+        rd = find_rd(fn)
+        if rd is None:
+            continue
+        for node in walk_function(fn.node, nested=False):
+            if not isinstance(node, ast.Call):
+                continue
+            name, operand = None, None
+            f = node.func
+            if isinstance(f, ast.Attribute) and isinstance(f.value, ast.Name) and f.value.id in {"sp", "sympy"} and f.attr in REBUILDERS and node.args:
+                name, operand = f.attr, node.args[0]
+            elif isinstance(f, ast.Name) and f.id in REBUILDERS and (tree.callee(node, fn) or "").startswith("sympy") and node.args:
+                name, operand = f.id, node.args[0]
+            elif isinstance(f, ast.Attribute) and f.attr in REBUILD_METHODS and not (isinstance(f.value, ast.Name) and f.value.id in {"sp", "sympy"}):
+                name, operand = f.attr, f.value
+            elif isinstance(f, ast.Attribute) and f.attr in {"applyfunc", "replace"} and node.args:
+                a0 = node.args[0]
+                inner = a0.attr if isinstance(a0, ast.Attribute) else a0.id if isinstance(a0, ast.Name) else None
+                if f.attr == "applyfunc" and inner in REBUILDERS:
+                    name, operand = f"applyfunc({inner})", f.value
+            if name is None:
+                continue
+            n_calls += 1
+            why = expr_tainted(fn, rd, operand)
+            sites.append({"fn": fn, "node": node, "name": name, "operand": operand, "carrier_via": why})
+    return sites, {"producers": len(producers), "tainted_params": sorted(f"{a}({b})" for a, b in tainted_params), "rebuilder_calls": n_calls}
